@@ -3,6 +3,10 @@
 package c04
 
 import (
+	"sync"
+	"github.com/ucan-wg/go-ucan/token/delegation"
+	"github.com/ucan-wg/go-ucan/pkg/command"
+	"github.com/ucan-wg/go-ucan/token/invocation"
 	"fmt"
 	"os"
 	"testing"
@@ -95,6 +99,10 @@ func drawChain(t *rapid.T) chain.Case {
 			l.Nbf = &v
 			cs.Dev = append(cs.Dev, "inactive@"+where)
 		}
+	}
+	if nd > 0 && rapid.IntRange(0, 5).Draw(t, "crossfamily") == 3 {
+		// the time rule binds whatever else is wrong with the chain
+		chain.ApplyPrincipalDeviation(t, &cs, rapid.SampledFrom([]string{"subject-undef", "subject-other", "rewire-aud", "last-not-root", "duplicate", "swap"}).Draw(t, "crossdev"))
 	}
 	return cs
 }
@@ -267,3 +275,143 @@ func TestStore(t *testing.T) { storeProp.Check(t) }
 var clockProp = h.Define(P, "clock", chain.DrawClock, func(c *h.Ctx, cc chain.ClockCase) { chain.RunClock(c, cc, "C04") })
 
 func TestClock(t *testing.T) { clockProp.Check(t) }
+
+
+// ---------- concurrent decoding ----------
+
+// ConcWin: sealed tokens with different bounds (some expired, some not yet active, several whose timestamps are
+// congruent modulo 2^8 .. 2^16 seconds) decoded by several goroutines at once: every decoded token must carry
+// ITS OWN bounds and be valid now exactly when those bounds say so - as when it is decoded alone.
+type ConcWin struct {
+	Offsets    [][2]int64 `json:"offsets"` // per token: (nbf, exp) in seconds relative to now; 0 = absent
+	Inv        []bool     `json:"inv"`
+	Goroutines int        `json:"goroutines"`
+	Rounds     int        `json:"rounds"`
+}
+
+func runConcWin(c *h.Ctx, cw ConcWin) {
+	type item struct {
+		sealed   []byte
+		inv      bool
+		nbf, exp *time.Time
+		valid    bool
+	}
+	var items []item
+	now := time.Now()
+	for i, o := range cw.Offsets {
+		var sealed []byte
+		var err error
+		inv := i < len(cw.Inv) && cw.Inv[i]
+		iss, aud := chain.Prin(i%4), chain.Prin((i+1)%4)
+		if inv {
+			opts := []invocation.Option{invocation.WithNonce([]byte(fmt.Sprintf("conc-nonce-%04d", i)))}
+			if o[1] != 0 {
+				opts = append(opts, invocation.WithExpirationIn(time.Duration(o[1])*time.Second))
+			}
+			var tk *invocation.Token
+			if tk, err = invocation.New(iss.DID, aud.DID, command.MustParse("/foo"), nil, opts...); err == nil {
+				sealed, _, err = tk.ToSealed(iss.Priv)
+			}
+		} else {
+			opts := []delegation.Option{delegation.WithNonce([]byte(fmt.Sprintf("conc-nonce-%04d", i)))}
+			if o[0] != 0 {
+				opts = append(opts, delegation.WithNotBeforeIn(time.Duration(o[0])*time.Second))
+			}
+			if o[1] != 0 {
+				opts = append(opts, delegation.WithExpirationIn(time.Duration(o[1])*time.Second))
+			}
+			var tk *delegation.Token
+			if tk, err = delegation.Root(iss.DID, aud.DID, command.MustParse("/foo"), nil, opts...); err == nil {
+				sealed, _, err = tk.ToSealed(iss.Priv)
+			}
+		}
+		if err != nil {
+			continue
+		}
+		// expected: what the same bytes give when decoded alone
+		t0, _, err := token.FromSealed(sealed)
+		if err != nil {
+			continue
+		}
+		it := item{sealed: sealed, inv: inv, valid: t0.IsValidNow()}
+		switch x := t0.(type) {
+		case *delegation.Token:
+			it.nbf, it.exp = x.NotBefore(), x.Expiration()
+		case *invocation.Token:
+			it.exp = x.Expiration()
+		}
+		// only tokens whose validity cannot change during the run
+		near := func(p *time.Time) bool { return p != nil && p.Sub(now) > -60*time.Second && p.Sub(now) < 60*time.Second }
+		if near(it.nbf) || near(it.exp) {
+			continue
+		}
+		items = append(items, it)
+	}
+	if len(items) < 2 {
+		return
+	}
+	same := func(a, b *time.Time) bool { return (a == nil) == (b == nil) && (a == nil || a.Unix() == b.Unix()) }
+	var mu sync.Mutex
+	bad := ""
+	pv := h.Concurrently(cw.Goroutines, func(g int) {
+		for r := 0; r < cw.Rounds; r++ {
+			it := items[(g+r)%len(items)]
+			tk, _, err := token.FromSealed(it.sealed)
+			if err != nil {
+				mu.Lock()
+				bad = fmt.Sprintf("decoding under concurrency fails: %v", err)
+				mu.Unlock()
+				return
+			}
+			var nbf, exp *time.Time
+			switch x := tk.(type) {
+			case *delegation.Token:
+				nbf, exp = x.NotBefore(), x.Expiration()
+			case *invocation.Token:
+				exp = x.Expiration()
+			}
+			if !same(nbf, it.nbf) || !same(exp, it.exp) || tk.IsValidNow() != it.valid {
+				mu.Lock()
+				bad = fmt.Sprintf("a token decoded while others are being decoded carries other bounds than when decoded alone: nbf %v (alone %v), exp %v (alone %v), valid now %v (alone %v)", nbf, it.nbf, exp, it.exp, tk.IsValidNow(), it.valid)
+				mu.Unlock()
+				return
+			}
+		}
+	})
+	if pv != nil {
+		c.Fail("C04/concurrent/panic", "panic while decoding concurrently: %v", pv)
+	}
+	if bad != "" {
+		c.Fail("C04/concurrent/window-differs", "%s", bad)
+	}
+	c.P.NonTrivial([]any{"concwin", cw.Offsets, cw.Goroutines}, map[string]any{"concurrent_decodes": cw.Goroutines, "tokens": len(items), "offsets": cw.Offsets})
+	c.P.Class(fmt.Sprintf("concurrent-windows/goroutines=%d", cw.Goroutines))
+}
+
+var concWinProp = h.Define(P, "concwin", func(t *rapid.T) ConcWin {
+	cw := ConcWin{Goroutines: rapid.IntRange(2, 8).Draw(t, "goroutines"), Rounds: rapid.IntRange(400, 3000).Draw(t, "rounds")}
+	n := rapid.IntRange(3, 6).Draw(t, "ntok")
+	base := int64(rapid.SampledFrom([]int{-7200, -3600, 3600, 86400}).Draw(t, "base"))
+	step := int64(rapid.SampledFrom([]int{256, 256, 1024, 4096, 65536, 1}).Draw(t, "step"))
+	for i := 0; i < n; i++ {
+		o := [2]int64{0, 0}
+		k := int64(rapid.IntRange(0, 60).Draw(t, "k"))
+		switch rapid.IntRange(0, 2).Draw(t, "which") {
+		case 0:
+			o[1] = base + k*step
+		case 1:
+			o[0] = base + k*step
+		default:
+			o[0], o[1] = -86400+k*step, base+k*step+7200
+		}
+		cw.Offsets = append(cw.Offsets, o)
+		cw.Inv = append(cw.Inv, rapid.IntRange(0, 3).Draw(t, "isinv") == 2)
+	}
+	return cw
+}, runConcWin)
+
+func TestConcurrentDecode(t *testing.T) { concWinProp.Check(t) }
+
+// the same under the race detector (slower, so it explores fewer interleavings, but it sees unsynchronised
+// accesses that happen not to corrupt anything in this run)
+func TestConcurrentDecodeRace(t *testing.T) { concWinProp.Check(t) }
